@@ -19,7 +19,15 @@ def main(argv: list[str]) -> int:
     seed = int(os.environ.get("VERIF_SEED", "0") or 0)
     if argv[1] == "--replay":
         rec = json.loads(open(argv[2]).read())
-        vs = mod.replay(rec["case"])
+        if "replay_shard" in rec["case"]:
+            # a history-dependent violation: re-run the recorded shard from the start
+            def tup(x):  # JSON turned the shard tuple into lists
+                return tuple(tup(y) for y in x) if isinstance(x, list) else x
+
+            mod.plan(rec["case"].get("tier", "quick"), seed)
+            vs = [v for v in mod.run_shard(tup(rec["case"]["replay_shard"])).violations if v["sig"] == rec["sig"]][:1]
+        else:
+            vs = mod.replay(rec["case"])
         if vs:
             for v in vs:
                 print(f"VIOLATION property={prop} replay={argv[2]}")
